@@ -500,6 +500,9 @@ func (b *teletextPageBuffer) dump(lastTime time.Time) (ps []*teletextPage) {
 func (b *teletextPageBuffer) process(d *astits.PESData, t time.Time) (ps []*teletextPage) {
 	// Data identifier
 	var offset int
+	if len(d.Data) == 0 {
+		return
+	}
 	dataIdentifier := uint8(d.Data[offset])
 	offset += 1
 
@@ -510,6 +513,11 @@ func (b *teletextPageBuffer) process(d *astits.PESData, t time.Time) (ps []*tele
 
 	// Loop through data units
 	for offset < len(d.Data) {
+		// A data unit starts with its id and its length
+		if offset+2 > len(d.Data) {
+			break
+		}
+
 		// ID
 		id := uint8(d.Data[offset])
 		offset += 1
@@ -541,6 +549,12 @@ func (b *teletextPageBuffer) process(d *astits.PESData, t time.Time) (ps []*tele
 func (b *teletextPageBuffer) parseDataUnit(i []byte, id uint8, t time.Time) {
 	// Check id
 	if id != teletextPESDataUnitIDEBUSubtitleData {
+		return
+	}
+
+	// A teletext data unit is made of 2 bytes (field parity, line offset and framing code), 2 bytes for the
+	// magazine and packet numbers and 40 bytes of data
+	if len(i) < 44 {
 		return
 	}
 
@@ -744,7 +758,7 @@ func newTeletextCharacterDecoder() *teletextCharacterDecoder {
 
 // TODO Add tests
 func (d *teletextCharacterDecoder) setTripletM29(i uint32) {
-	if *d.tripletM29 != i {
+	if d.tripletM29 == nil || *d.tripletM29 != i {
 		d.tripletM29 = astikit.UInt32Ptr(i)
 		d.updateCharset(d.lastPageCharsetCode, true)
 	}
@@ -752,7 +766,7 @@ func (d *teletextCharacterDecoder) setTripletM29(i uint32) {
 
 // TODO Add tests
 func (d *teletextCharacterDecoder) setTripletX28(i uint32) {
-	if *d.tripletX28 != i {
+	if d.tripletX28 == nil || *d.tripletX28 != i {
 		d.tripletX28 = astikit.UInt32Ptr(i)
 		d.updateCharset(d.lastPageCharsetCode, true)
 	}
@@ -768,6 +782,11 @@ func (d *teletextCharacterDecoder) decode(i byte) []byte {
 
 // TODO Add tests
 func (d *teletextCharacterDecoder) updateCharset(pageCharsetCode *uint8, force bool) {
+	// No page has provided its charset code yet
+	if pageCharsetCode == nil {
+		return
+	}
+
 	// Charset is up to date
 	if d.lastPageCharsetCode != nil && *pageCharsetCode == *d.lastPageCharsetCode && !force {
 		return
